@@ -60,6 +60,7 @@ func (c *genCfg) inputs(emit func(string)) {
 		}
 		truncations(sqlTemplates, sqlDecoys, emit)
 		byteSweep(sqlSweepSeeds, emit)
+		twinSweep(sqlSweepSeeds, "'\"`-/#*;=()., ", emit)
 		sqlLengthBoundaries(emit)
 		tableDrivenSQL(emit)
 		for i, k := 0, n(120000, 2500000); i < k; i++ {
@@ -88,6 +89,7 @@ func (c *genCfg) inputs(emit func(string)) {
 		}
 		truncations(htmlTemplates, htmlDecoys, emit)
 		byteSweep(htmlSweepSeeds, emit)
+		twinSweep(htmlSweepSeeds, "<>='\"`/!-%?&#; ", emit)
 		tableDrivenHTML(emit)
 		lateVectorsHTML(thorough, emit)
 		for i, k := 0, n(150000, 3000000); i < k; i++ {
@@ -101,6 +103,7 @@ func (c *genCfg) inputs(emit func(string)) {
 			emit(s)
 		}
 		byteSweep(unitSweepSeeds, emit)
+		twinSweep(unitSweepSeeds, "&#;:-", emit)
 		unitAlpha := []byte("&#xX;0169aAfFgjJ:\x00\n \x7f\xe9-")
 		if thorough {
 			exhaustive("", unitAlpha, 5, emit)
